@@ -327,3 +327,17 @@ def run(ctx: Ctx) -> None:
     n9 = kinds_not_confused(ctx, "C15.R9", ("dds._api", "dds"), "the requested stage list is ignored: dds.eval(f, dds_stages=['analysis']) runs user code, writes blobs and commits paths",
                             callees=(parser.name,))
     rep.floor("C15.R9", n9, 3)
+    from .common import display_calls_are_dry
+    rep.rule("C15.R10", "the package's own analysis-only evaluations (made for the exported graph, result thrown away: displayGraph) pass a literal stage list that holds the analysis "
+                        "stage only")
+    n10 = display_calls_are_dry(ctx, "C15.R10")
+    rep.floor("C15.R10", n10, 1)
+    # a run that stops before the path commit leaves blobs that a later full evaluation serves: they are read back as they were computed
+    from .c17 import codec_duals
+    rep.rule("C15.R11", "as C17.R4/R5: what a restricted run stored is what the later full evaluation returns - every codec reads back what it wrote (binary mode, same encoding)")
+    codec_duals(ctx, "C15.R11", "C15.R11")
+    from .c16 import decode_set_store_local
+    from . import storerules as _S15
+    rep.rule("C15.R12", "as C16.R3: a run that stops before the path commit writes its blobs under the internal directory and nothing under the data directory: set_store('local') hands "
+                        "each configured directory to the parameter of its name")
+    decode_set_store_local(ctx, _S15.LocalView(ctx), "C15.R12")
